@@ -48,6 +48,10 @@ type input struct {
 	CorruptMark  int  `json:"corrupt_mark"`  // deletion-mark.json / no-compact-mark.json not JSON
 	BadVersion   bool `json:"bad_version"`   // one meta.json with version 9: the sync fails by itself
 	Cleaner      bool `json:"cleaner"`       // BucketCompactor built with a BlocksCleaner
+	// StressBlocks > 0: additionally fetch a bucket of that many meta-only blocks through the
+	// ConcurrentLister with one Exists probe failing, 30 times (a failed listing must come back
+	// as an error of Fetch, not as a crash of the process).
+	StressBlocks int `json:"stress_blocks,omitempty"`
 	MaxFaults    int  `json:"max_faults"`    // at most this many fault positions are tried (0 = all)
 	FaultSeed    int64 `json:"fault_seed"`
 }
@@ -412,6 +416,33 @@ func mutAfterFault(ops []cu.Op) (n int, names []string) {
 	return
 }
 
+func listerStress(n int) error {
+	ctx := context.Background()
+	inmem := objstore.NewInMemBucket()
+	var ids []ulid.ULID
+	for i := 0; i < n; i++ {
+		id := mkULID(uint64(9000+i), i)
+		ids = append(ids, id)
+		if err := inmem.Upload(ctx, path.Join(id.String(), "meta.json"), bytes.NewReader(metaOnly(id, "s", 0, 1000, nil, 1))); err != nil {
+			return err
+		}
+	}
+	for rep := 0; rep < 30; rep++ {
+		bkt := cu.NewRecBucket(inmem)
+		victim := path.Join(ids[(rep*7)%n].String(), "meta.json")
+		bkt.FailName = func(kind, name string) bool { return kind == "exists" && name == victim }
+		ins := objstore.WithNoopInstr(bkt)
+		f, err := block.NewMetaFetcher(log.NewNopLogger(), 8, ins, block.NewConcurrentLister(log.NewNopLogger(), ins), "", nil, nil)
+		if err != nil {
+			return err
+		}
+		if _, _, err := f.Fetch(ctx); err == nil {
+			return fmt.Errorf("lister stress: Fetch succeeded although an Exists probe failed")
+		}
+	}
+	return nil
+}
+
 func run(raw json.RawMessage) (common.Case, error) {
 	var in input
 	if err := json.Unmarshal(raw, &in); err != nil {
@@ -424,6 +455,12 @@ func run(raw json.RawMessage) (common.Case, error) {
 	var c common.Case
 	ctx := context.Background()
 	sc := build(in)
+
+	if in.StressBlocks > 0 {
+		if err := listerStress(in.StressBlocks); err != nil {
+			return c, err
+		}
+	}
 
 	// 1. a stand-alone sync on the intact bucket: its reads, and whether it fails by itself
 	p, err := newPipeline(in, sc)
@@ -516,8 +553,11 @@ func gen(r *rand.Rand, tier string, n int) []any {
 		in.CorruptMeta = r.Intn(2)
 		in.CorruptMark = r.Intn(3)
 		in.BadVersion = r.Intn(10) == 0
-		if tier != "thorough" {
-			in.MaxFaults = 12
+		if in.Lister == "concurrent" && r.Intn(3) == 0 {
+			in.StressBlocks = 100 + r.Intn(200)
+		}
+		if tier != "thorough" && r.Intn(2) == 0 {
+			in.MaxFaults = 16 // the other half enumerates every read of the sync
 		}
 		out = append(out, in)
 	}
